@@ -38,6 +38,10 @@ func runFE(c feCase, logIssues bool) (*model.SpecOut, *model.Result, reflect.Val
 		res := model.Run(schema, env, exec, nil, dest)
 		return spec, res, dest, "", ""
 	}
+	if c.Root.Kind == model.KPtr && c.FE != model.FEMap && (c.Logical.IsNil() || len(c.Logical.M) == 0) {
+		// an EMPTY record under a pointer root means "the struct does not exist" (pinned by the repository's own test)
+		return nil, nil, reflect.Value{}, "", "empty-record-under-pointer-root"
+	}
 	r, err := model.RenderFE(c.FE, c.Root, c.Logical)
 	if err != nil {
 		return nil, nil, reflect.Value{}, "", "not-expressible-in-front-end"
@@ -238,6 +242,10 @@ func genFE(rt *rapid.T, h *hh.H, mode string, fes []string, cfg model.GenCfg) fe
 	}
 	g := model.NewGen(rt, cfg)
 	root := g.GenNode(cfg.MaxDepth, true)
+	if fe != model.FEMap && root.Kind == model.KStruct && rapid.IntRange(0, 4).Draw(rt, "ptrroot") == 0 {
+		// "a struct that may not exist": Ptr(Struct) at the root, also fed by the front-end factories
+		root = &model.Node{Kind: model.KPtr, Elem: root, Req: rapid.Bool().Draw(rt, "notnil")}
+	}
 	root.Number()
 	typed := g.GenTyped(root)
 	c := feCase{Root: root, FE: fe, Mode: mode}
